@@ -198,6 +198,12 @@ def gen(rng, tier):
         for wf in (["fail", "other"], 0, 3, "intr", None):
             for order in (0, 1):
                 cases.append(make_case2(rng, idx, wf, ["fail", "timeout"], order, acks=0))
+    # (h) a metadata load whose request is refused by the stream before a single byte is accepted (the connection stays in step),
+    #     then a group call that needs a pooled connection for its coordinator lookup, then ordinary calls
+    for wf in (["fail", "other"], ["fail", "timeout"]):
+        for which in (0, 0, 1):
+            for follow in ([("commit", 1), ("offsets", 1)], [("commit", 0)], [("offsets", 0), ("commit", 1)]):
+                cases.append(make_case(rng, "metadata", {"write": {0: wf}}, follow=follow, nb=1, which=which, tag="metadata_write_refused"))
     # (e) refused connects
     for kind in KINDS:
         for h in (1, 2):
